@@ -41,6 +41,7 @@ func (s *spyUfs) note(f *go9p.SrvFid) {
 	s.paths[go9p.VerifFidNum(f)] = go9p.VerifUfsFidPath(f)
 	s.mu.Unlock()
 }
+
 // SrvReqProcessOps: SrvReqRespond runs inside Respond before the reply is queued,
 // so the paths are recorded before the client can see the reply.
 func (s *spyUfs) SrvReqProcess(r *go9p.SrvReq) { r.Process() }
@@ -111,10 +112,10 @@ func confinementPlans() []confPlan {
 	targets := []string{"../rootx", "../root-private/canary", "../root-private/new", "/../rootx", "../canary", "../../x",
 		"sub/../../canary", "..", "../outerdir", "../root-private", "a/../../root-private/canary", "/../root-private/canary"}
 	for _, t := range targets {
-		ps = append(ps, confPlan{aname: t})                                                       // attach name
-		ps = append(ps, confPlan{ops: []int{2}, names: []string{t}})                               // create in the root
-		ps = append(ps, confPlan{ops: []int{3}, names: []string{t}})                               // rename of the root fid (refused) ...
-		ps = append(ps, confPlan{ops: []int{9, 3}, names: []string{t}})                            // ... and of a file below it (op 9: walk to "x")
+		ps = append(ps, confPlan{aname: t})                                                          // attach name
+		ps = append(ps, confPlan{ops: []int{2}, names: []string{t}})                                 // create in the root
+		ps = append(ps, confPlan{ops: []int{3}, names: []string{t}})                                 // rename of the root fid (refused) ...
+		ps = append(ps, confPlan{ops: []int{9, 3}, names: []string{t}})                              // ... and of a file below it (op 9: walk to "x")
 		ps = append(ps, confPlan{ops: []int{9, 3}, names: []string{"/" + strings.TrimLeft(t, "/")}}) // root-relative rename
 	}
 	// '..' chains from below the root, in one Twalk (op 8: a walk with exactly these elements)
@@ -746,7 +747,7 @@ func mutationSequences(nseq int, base string) {
 			nsteps++
 		}
 		for i := 0; i < 14; i++ {
-			switch rng.Intn(9) {
+			switch rng.Intn(11) {
 			case 8: // hard link (9P2000.u): ext is the number of a fid walked to the source
 				if !dotu {
 					continue
@@ -916,17 +917,71 @@ func mutationSequences(nseq int, base string) {
 					_ = t.clnt.Clunk(nfid)
 				}
 				step("wstat", hxs(p), e9, eT)
-			default: // set mtime
+			case 9: // a write through an open fid after its file was renamed through another fid: write(2) on a descriptor
+				p := []string{"f1", "d1/f2"}[rng.Intn(2)]
+				to := newName()
+				f, e9 := t.clnt.FOpen(p, go9p.ORDWR)
+				fd, eT := os.OpenFile(filepath.Join(b, p), os.O_RDWR, 0)
+				if e9 != nil || eT != nil {
+					if f != nil {
+						_ = f.Close()
+					}
+					if fd != nil {
+						_ = fd.Close()
+					}
+					step("openw", hxs(p), e9, eT)
+					continue
+				}
+				d := go9p.Dir{Name: to, Mode: 0xFFFFFFFF, Length: 0xFFFFFFFFFFFFFFFF, Mtime: 0xFFFFFFFF, Atime: 0xFFFFFFFF, Uidnum: go9p.NOUID, Gidnum: go9p.NOUID}
+				g, e9 := t.clnt.FWalk(p)
+				if e9 == nil {
+					e9 = t.clnt.Wstat(g, &d)
+					_ = t.clnt.Clunk(g)
+				}
+				eT = syscall.Rename(filepath.Join(b, p), filepath.Join(filepath.Dir(filepath.Join(b, p)), to))
+				step("rename2", hxs(p)+"->"+hxs(to), e9, eT)
+				_, e9 = f.WriteAt([]byte("written after the rename"), 3)
+				_, eT = fd.WriteAt([]byte("written after the rename"), 3)
+				_ = f.Close()
+				_ = fd.Close()
+				step("writeopen", hxs(p), e9, eT)
+			default: // set mtime (and atime), or the mtime alone
 				p := objs[rng.Intn(len(objs))]
 				mt := uint32(1400000000 + rng.Intn(100000000))
 				d := go9p.Dir{Mode: 0xFFFFFFFF, Length: 0xFFFFFFFFFFFFFFFF, Mtime: mt, Atime: mt, Uidnum: go9p.NOUID, Gidnum: go9p.NOUID}
+				alone := rng.Intn(2) == 0
+				at := time.Unix(int64(mt), 0)
+				if alone {
+					// both copies get a known atime first; the request must not touch it
+					d.Atime = 0xFFFFFFFF
+					at0 := time.Unix(int64(1300000000+rng.Intn(1000000)), 0)
+					_ = os.Chtimes(filepath.Join(a, p), at0, time.Unix(1350000000, 0))
+					_ = os.Chtimes(filepath.Join(b, p), at0, time.Unix(1350000000, 0))
+					at = time.Time{}
+				}
 				nfid, e9 := t.clnt.FWalk(p)
 				if e9 == nil {
 					e9 = t.clnt.Wstat(nfid, &d)
 					_ = t.clnt.Clunk(nfid)
 				}
-				eT := os.Chtimes(filepath.Join(b, p), time.Unix(int64(mt), 0), time.Unix(int64(mt), 0))
-				step("mtime", hxs(p), e9, eT)
+				eT := os.Chtimes(filepath.Join(b, p), at, time.Unix(int64(mt), 0))
+				// the times of the object itself, compared at once (reading the trees may move atimes)
+				sa, ea := os.Lstat(filepath.Join(a, p))
+				sb2, eb := os.Lstat(filepath.Join(b, p))
+				tsame := (ea == nil) == (eb == nil)
+				if ea == nil && eb == nil {
+					tsame = sa.ModTime().Unix() == sb2.ModTime().Unix() &&
+						sa.Sys().(*syscall.Stat_t).Atim.Sec == sb2.Sys().(*syscall.Stat_t).Atim.Sec
+				}
+				if !tsame && e9 == nil && eT == nil {
+					// reported as a difference of the trees
+					e9 = &go9p.Error{Err: "times differ from the twin", Errornum: 999}
+				}
+				if alone {
+					step("mtimeonly", hxs(p), e9, eT)
+				} else {
+					step("mtime", hxs(p), e9, eT)
+				}
 			}
 		}
 		t.clnt.Unmount()
